@@ -15,7 +15,7 @@
 #include <unistd.h>
 
 int vf_lib_fd = -1;                       /* facts are written here (a pipe to the parent) while >= 0 */
-static int vf_zlevel = 0;
+static __thread int vf_zlevel = 0;
 static void vf_emit(const char *head, const uint8_t *a, size_t na, const char *mid, const uint8_t *b, size_t nb)
 {
 	if (vf_lib_fd < 0) return;
@@ -65,7 +65,7 @@ static int vf_deflate(z_streamp zs, int flush)
 	if (r == Z_STREAM_END) vf_emit(h, in, n, " some", out, cap - zs->avail_out); else vf_emit(h, in, n, " none", NULL, 0);
 	return r;
 }
-static const uint8_t *vf_inf_in; static size_t vf_inf_n;
+static __thread const uint8_t *vf_inf_in; static __thread size_t vf_inf_n;
 static int vf_inflateInit(z_streamp zs) { vf_inf_in = NULL; return inflateInit(zs); }
 static int vf_inflate(z_streamp zs, int flush)
 {
